@@ -104,6 +104,7 @@ def gen_case(rng, tier):
         if len(set(kept)) != len(kept) or len(set(names2)) != len(names2) or not kept:
             mm = None
     return {"pins": pins, "idx": idx, "params": pnames, "pts": pts, "S": S, "emap": emap, "mm": mm,
+            "kw_rev": rng.choice([0, 1, 2]) if two else 0,
             "mids": [] if two else [[k, t] for k in range(len(pts) - 1) for t in (0.25, 0.5) if rng.random() < 0.6]}
 
 
@@ -130,7 +131,10 @@ def run_python(d, workdir):
     lpins = [(p.basename, p.mode_name) for p, _ in lp]
     grid = []
     for k, pt in enumerate(d["pts"]):
-        r = t.solve(**{name: pt[c] for c, name in enumerate(d["params"])})
+        kw = [(name, pt[c]) for c, name in enumerate(d["params"])]
+        if d.get("kw_rev") and (k % 2 == 0 or d.get("kw_rev") == 2):
+            kw.reverse()          # keyword order at evaluation differs from the column order of the file
+        r = t.solve(**dict(kw))
         M = np.asarray(r.S)[0]
         if not np.all(np.isfinite(M)):
             raise ValueError("non-finite coefficient at an exported point")
